@@ -394,10 +394,14 @@ fn get_record_reference_sequence<'c>(
         .map(|(name, _)| name)
         .expect("invalid reference sequence ID");
 
-    let sequence = reference_sequence_repository
+    // The reference sequence is only needed to rebuild the bases of the record. Without it (e.g.,
+    // when indexing), everything else can still be decoded.
+    let Some(sequence) = reference_sequence_repository
         .get(reference_sequence_name)
         .transpose()?
-        .expect("invalid reference sequence name");
+    else {
+        return Ok(None);
+    };
 
     Ok(Some(ReferenceSequence::External { sequence }))
 }
